@@ -15,7 +15,7 @@ import (
 
 func init() {
 	Registry["C13"] = Set{
-		Explanation: "Decides structural clauses of network FIFO on every frame writer: F1 the link selector handed to send and the receive-queue selector stored in the order byte are pure functions of the sender/receiver identifier (no counter, clock or random leaf); F2 on every path on which KeepNetworkOrder is true (and in writers without that option) the value range of both selectors excludes 0, the round-robin sentinel tested in send and serve — decided with an interval domain over %, &, +, >>, conversions to narrower unsigned types, and one level of helper inlining; a constant 0 is accepted only in the frozen list of writers that have no ordered stream (termination notices, replies addressed by name/event); F3 one worker per receive queue: the producer pushes, then tries the queue lock, and starts the worker only on the lock's success edge with the same queue; the queue index is the order byte modulo the queue count whenever the byte is non-zero; F4 the modulus applied to the link selector for ordered traffic must not change during the connection's life (today it is len(c.pool), which grows while links are joined: known finding F-V). Added while probing: F5 the compression envelope copies the receive-queue selector (byte 6) of the frame it wraps; F6 every options literal a process or meta process builds for a Route{Send,Call}* call sets KeepNetworkOrder from the process's keeporder field. F6 also: when the options value is replaced on some path by the result of a helper, that helper's literal carries the keep-order setting too. F7 the receive-queue selector of the six message-carrying writers is derived from the same end of the pair (the sender) in every addressing mode.",
+		Explanation: "Decides structural clauses of network FIFO on every frame writer: F1 the link selector handed to send and the receive-queue selector stored in the order byte are pure functions of the sender/receiver identifier (no counter, clock or random leaf); F2 on every path on which KeepNetworkOrder is true (and in writers without that option) the value range of both selectors excludes 0, the round-robin sentinel tested in send and serve — decided with an interval domain over %, &, +, >>, conversions to narrower unsigned types, and one level of helper inlining; a constant 0 is accepted only in the frozen list of writers that have no ordered stream (termination notices, replies addressed by name/event); F3 one worker per receive queue: the producer pushes, then tries the queue lock, and starts the worker only on the lock's success edge with the same queue; the queue index is the order byte modulo the queue count whenever the byte is non-zero; F4 the modulus applied to the link selector for ordered traffic must not change during the connection's life (today it is len(c.pool), which grows while links are joined: known finding F-V). Added while probing: F5 the compression envelope copies the receive-queue selector (byte 6) of the frame it wraps; F6 every options literal a process or meta process builds for a Route{Send,Call}* call sets KeepNetworkOrder from the process's keeporder field. F6 also: when the options value is replaced on some path by the result of a helper, that helper's literal carries the keep-order setting too. F7 the receive-queue selector of the six message-carrying writers is derived from the same end of the pair (the sender) in every addressing mode. F8 = C03.O7: the order byte is replaced by 0 only on a branch that tests KeepNetworkOrder and nothing else.",
 		NotDecided: []string{
 			"relative delay of pooled TCP links",
 			"behaviour after a link is lost and re-dialled",
@@ -601,6 +601,7 @@ var _ = load.Module
 // pid/alias-addressed writers must derive it from the sender too. One obligation for the family.
 func c13SelectorAgreement(p *load.Program, r *core.Report, isWriter map[string]bool) {
 	c13SelectorAgreementAs(p, r, "C13.F7 receive-queue-selector-agrees-across-addressing-modes")
+	orderClearedOnlyByOption(p, r, "C13.F8 order-byte-cleared-only-by-KeepNetworkOrder", "C13.F8", 15)
 }
 
 func c13SelectorAgreementAs(p *load.Program, r *core.Report, rule string) {
